@@ -317,3 +317,785 @@ def parse_known_extension(msg_type: int, ext_type: int, body: bytes, where: str)
             check(T.build_early_data(T.parse_early_data(body, nst)) == body, where)
     except T.ParseError as exc:
         raise Failure(f"{where}: extension {ext_type}: {exc}")
+
+
+# --------------------------------------------------------------------------
+# aioquic driver
+# --------------------------------------------------------------------------
+
+
+def aq():
+    from aioquic import tls
+    from aioquic.buffer import Buffer
+
+    return tls, Buffer
+
+
+class Driven:
+    """An unmodified aioquic tls.Context plus the traffic secrets it reports."""
+
+    def __init__(self, ctx):
+        tls, _ = aq()
+        self.ctx = ctx
+        self.keys: dict[tuple[str, str], bytes] = {}
+        self.suites: set[int] = set()
+        ctx.update_traffic_key_cb = self._on_key
+
+    def _on_key(self, direction, epoch, cipher_suite, secret) -> None:
+        self.keys[(direction.name, epoch.name)] = bytes(secret)
+        self.suites.add(int(cipher_suite))
+
+    def feed(self, data: bytes) -> dict[str, bytes]:
+        """handle_message; returns the output per epoch name."""
+        tls, Buffer = aq()
+        bufs = {e: Buffer(capacity=8192) for e in (tls.Epoch.INITIAL, tls.Epoch.HANDSHAKE, tls.Epoch.ONE_RTT)}
+        self.ctx.handle_message(data, bufs)
+        return {e.name: bytes(b.data) for e, b in bufs.items()}
+
+
+TP_CLIENT = bytes.fromhex("0504801000000604801000000704801000000801024064")
+TP_SERVER = bytes.fromhex("000884a5f5f6a1b2c3d40504800800000604800800000801034064")
+
+
+def aioquic_client(
+    *, alpn=None, server_name="localhost", cipher_suites=None, groups=None, verify=None, session_ticket=None, **kwargs
+):
+    tls, _ = aq()
+    ctx = tls.Context(
+        is_client=True,
+        alpn_protocols=alpn,
+        server_name=server_name,
+        cipher_suites=[tls.CipherSuite(c) for c in cipher_suites] if cipher_suites else None,
+        **(verify or {"verify_mode": ssl.CERT_NONE}),
+        **kwargs,
+    )
+    ctx.handshake_extensions = [(tls.ExtensionType.QUIC_TRANSPORT_PARAMETERS, TP_CLIENT)]
+    ctx.session_ticket = session_ticket
+    if groups is not None:
+        ctx._supported_groups = [tls.Group(g) for g in groups]
+    return Driven(ctx)
+
+
+def aioquic_server(cert, key, *, alpn=None, cipher_suites=None, **kwargs):
+    tls, _ = aq()
+    ctx = tls.Context(
+        is_client=False,
+        alpn_protocols=alpn,
+        cipher_suites=[tls.CipherSuite(c) for c in cipher_suites] if cipher_suites else None,
+        **kwargs,
+    )
+    ctx.certificate = cert
+    ctx.certificate_private_key = key
+    ctx.handshake_extensions = [(tls.ExtensionType.QUIC_TRANSPORT_PARAMETERS, TP_SERVER)]
+    return Driven(ctx)
+
+
+def same_secrets(peer: T._Peer, driven: Driven, aioquic_is_client: bool, what: str) -> None:
+    """The four traffic secrets reported by aioquic equal reftls's."""
+    enc, dec = ("client", "server") if aioquic_is_client else ("server", "client")
+    expected = {
+        ("ENCRYPT", "HANDSHAKE"): getattr(peer, f"{enc}_hs_secret"),
+        ("DECRYPT", "HANDSHAKE"): getattr(peer, f"{dec}_hs_secret"),
+        ("ENCRYPT", "ONE_RTT"): getattr(peer, f"{enc}_app_secret"),
+        ("DECRYPT", "ONE_RTT"): getattr(peer, f"{dec}_app_secret"),
+    }
+    for slot, secret in expected.items():
+        check(secret is not None and driven.keys.get(slot) == secret, f"{what}: secret {slot}")
+    check(driven.suites == {peer.cipher_suite}, f"{what}: cipher suite reported")
+
+
+# --------------------------------------------------------------------------
+# 2. RefServer <-> aioquic client
+# --------------------------------------------------------------------------
+
+
+def refserver_handshake(material, label, suite, group, *, alpn=b"hq-interop", rng=os.urandom, client_kwargs=None, **skw):
+    tls, _ = aq()
+    cert, key, verify = material[label]
+    client = aioquic_client(
+        alpn=[alpn.decode()] if alpn else None,
+        cipher_suites=[suite],
+        groups=[group],
+        verify=verify,
+        **(client_kwargs or {}),
+    )
+    ch = client.feed(b"")["INITIAL"]
+    server = T.RefServer([der(cert)], key, alpn=alpn, transport_parameters=TP_SERVER, rng=rng, **skw)
+    server.receive_client_hello(ch)
+    return client, server, ch
+
+
+def test_refserver(material) -> None:
+    tls, _ = aq()
+    for label in material:
+        for suite in (T.TLS_AES_128_GCM_SHA256, T.TLS_AES_256_GCM_SHA384, T.TLS_CHACHA20_POLY1305_SHA256):
+            for group in (T.GROUP_X25519, T.GROUP_SECP256R1, T.GROUP_SECP384R1, T.GROUP_X448):
+                what = f"RefServer {label} {suite:#06x} group {group}"
+                client, server, ch = refserver_handshake(material, label, suite, group)
+                check(server.cipher_suite == suite and server.group == group, f"{what}: negotiation")
+                check(server.client_transport_parameters == TP_CLIENT, f"{what}: client TP seen")
+                check(server.client_server_name == "localhost", f"{what}: SNI")
+                sh, flight = server.default_flight()
+                out = client.feed(sh)
+                check(client.ctx.state == tls.State.CLIENT_EXPECT_ENCRYPTED_EXTENSIONS, f"{what}: SH accepted")
+                # feed the handshake flight message by message, byte-split the first one
+                chunks = T.split_messages(flight)
+                check([c[0] for c in chunks] == [8, 11, 15, 20], f"{what}: flight shape")
+                out = client.feed(chunks[0][:5])
+                out = client.feed(chunks[0][5:] + chunks[1])
+                out = client.feed(chunks[2] + chunks[3])
+                check(client.ctx.state == tls.State.CLIENT_POST_HANDSHAKE, f"{what}: client done")
+                check(client.ctx.alpn_negotiated == "hq-interop", f"{what}: ALPN")
+                check(
+                    client.ctx.received_extensions == [(T.EXT_QUIC_TRANSPORT_PARAMETERS, TP_SERVER)],
+                    f"{what}: server TP delivered",
+                )
+                check(server.check_client_finished(out["HANDSHAKE"]), f"{what}: client Finished verifies")
+                same_secrets(server, client, True, what)
+
+    # negative controls: the client must reject what a key-less attacker could produce,
+    # and what RefServer signs over a *different* transcript
+    client, server, _ = refserver_handshake(material, "rsa", 0x1301, 29)
+    sh = server.server_hello()
+    client.feed(sh)
+    bad = server.encrypted_extensions() + server.certificate()
+    other_rsa = rsa.generate_private_key(public_exponent=65537, key_size=2048)
+    cv = server.certificate_verify(private_key=other_rsa)  # wrong key, same type
+    expect_raises(tls.AlertDecryptError, client.feed, bad + cv, what="aioquic rejects CertificateVerify by another key")
+
+    # observation (not a reftls check): scheme / certificate key type mismatch
+    client, server, _ = refserver_handshake(material, "rsa", 0x1301, 29)
+    client.feed(server.server_hello())
+    bad = server.encrypted_extensions() + server.certificate()
+    cv = server.certificate_verify(private_key=material["ec256"][1])  # ecdsa scheme, RSA certificate
+    try:
+        client.feed(bad + cv)
+        raise Failure("aioquic accepted an ECDSA CertificateVerify for an RSA certificate")
+    except tls.Alert:
+        check(True, "mismatch rejected with an alert")
+    except Failure:
+        raise
+    except Exception as exc:
+        check(True, "mismatch rejected")
+        note(
+            "aioquic client: CertificateVerify whose scheme does not fit the certificate key type "
+            f"(ecdsa_secp256r1_sha256 with an RSA leaf) escapes as {type(exc).__name__}: {exc}"
+        )
+
+    client, server, _ = refserver_handshake(material, "rsa", 0x1301, 29)
+    client.feed(server.server_hello())
+    flight = server.encrypted_extensions() + server.certificate() + server.certificate_verify()
+    fin = server.finished(verify_data=bytes(32))
+    expect_raises(tls.AlertDecryptError, client.feed, flight + fin, what="aioquic rejects bad Finished")
+
+    # scripted: an extra unknown-but-ignorable EE extension still yields matching secrets
+    client, server, _ = refserver_handshake(material, "ed25519", 0x1303, 29)
+    client.feed(server.server_hello())
+    flight = server.encrypted_extensions(extra_extensions=[(0xFAFA, b"grease")])
+    flight += server.certificate() + server.certificate_verify() + server.finished()
+    out = client.feed(flight)
+    check(client.ctx.state == tls.State.CLIENT_POST_HANDSHAKE, "scripted EE: client done")
+    check(server.check_client_finished(out["HANDSHAKE"]), "scripted EE: client Finished")
+    same_secrets(server, client, True, "scripted EE")
+    tampered = bytearray(out["HANDSHAKE"])
+    tampered[-1] ^= 1
+    check(not server.check_client_finished(bytes(tampered)), "tampered client Finished rejected")
+
+    # client certificate requested by RefServer
+    cert, key, _ = material["ec256"]
+    client, server, _ = refserver_handshake(material, "rsa", 0x1302, 23)
+    client.ctx.certificate, client.ctx.certificate_private_key = cert, key
+    sh, flight = server.default_flight(request_client_certificate=True)
+    client.feed(sh)
+    out = client.feed(flight)
+    msgs = server.receive_client_flight(out["HANDSHAKE"])
+    check([m["type"] for m in msgs] == [11, 15, 20], "client auth: flight shape")
+    check(server.client_cert_verify_ok and server.client_finished_ok, "client auth: verified")
+    check(server.client_certificates[0][0] == der(cert), "client auth: certificate")
+    same_secrets(server, client, True, "client auth")
+    # ... and with a client that has no certificate
+    client, server, _ = refserver_handshake(material, "rsa", 0x1301, 29)
+    sh, flight = server.default_flight(request_client_certificate=True)
+    client.feed(sh)
+    msgs = server.receive_client_flight(client.feed(flight)["HANDSHAKE"])
+    check([m["type"] for m in msgs] == [11, 20] and msgs[0]["certificates"] == [], "client auth: empty certificate")
+
+    # determinism given rng (Ed25519 signatures are deterministic)
+    flights = []
+    for _ in range(2):
+        client, server, ch = refserver_handshake(material, "ed25519", 0x1301, 29, rng=det_rng(7))
+        flights.append(server.default_flight())
+        # same server output for a *different* ClientHello is not expected; compare structure only
+    a = [T.decode_message(m) for m in T.split_messages(flights[0][0])][0]
+    b = [T.decode_message(m) for m in T.split_messages(flights[1][0])][0]
+    check(a == b, "deterministic ServerHello given rng")
+
+
+# --------------------------------------------------------------------------
+# 3. RefClient <-> aioquic server
+# --------------------------------------------------------------------------
+
+
+def refclient_handshake(material, label, suite, group, *, request_cert=False, client_cert=None, rng=os.urandom, **ckw):
+    tls, _ = aq()
+    cert, key, _ = material[label]
+    server = aioquic_server(cert, key, alpn=["h3", "hq-interop"], **ckw.pop("server_kwargs", {}))
+    server.ctx._request_client_certificate = request_cert
+    kwargs = {}
+    if client_cert is not None:
+        kwargs = {"client_cert_chain_der": [der(client_cert[0])], "client_private_key": client_cert[1]}
+    client = T.RefClient(
+        server_name="localhost",
+        alpn=[b"hq-interop"],
+        transport_parameters=TP_CLIENT,
+        cipher_suites=(suite,),
+        groups=(group,),
+        rng=rng,
+        **kwargs,
+        **ckw,
+    )
+    out = server.feed(client.client_hello())
+    return client, server, out
+
+
+def test_refclient(material) -> None:
+    tls, _ = aq()
+    for label in material:
+        for suite in (T.TLS_AES_128_GCM_SHA256, T.TLS_AES_256_GCM_SHA384, T.TLS_CHACHA20_POLY1305_SHA256):
+            for group in (T.GROUP_X25519, T.GROUP_SECP256R1, T.GROUP_SECP384R1, T.GROUP_X448):
+                what = f"RefClient {label} {suite:#06x} group {group}"
+                client, server, out = refclient_handshake(material, label, suite, group)
+                msgs = client.receive_server_flight(out["INITIAL"])
+                check([m["type"] for m in msgs] == [2], f"{what}: ServerHello")
+                # deliver the handshake flight in two arbitrary pieces
+                hs = out["HANDSHAKE"]
+                msgs = client.receive_server_flight(hs[:100]) + client.receive_server_flight(hs[100:])
+                check([m["type"] for m in msgs] == [8, 11, 15, 20], f"{what}: flight shape")
+                check(client.state == T.RefClient.CONNECTED, f"{what}: connected")
+                check(client.group == group and client.cipher_suite == suite, f"{what}: negotiation")
+                check(client.alpn_negotiated == b"hq-interop", f"{what}: ALPN")
+                check(client.server_transport_parameters == TP_SERVER, f"{what}: server TP")
+                check(client.server_certificates[0][0] == der(material[label][0]), f"{what}: certificate")
+                check(server.ctx.received_extensions == [(T.EXT_QUIC_TRANSPORT_PARAMETERS, TP_CLIENT)], f"{what}: TP")
+                server.feed(client.client_flight())
+                check(server.ctx.state == tls.State.SERVER_POST_HANDSHAKE, f"{what}: server done")
+                same_secrets(client, server, False, what)
+
+    # client certificate
+    for ckey in ("rsa", "ec256", "ed25519"):
+        what = f"RefClient client-auth {ckey}"
+        client, server, out = refclient_handshake(
+            material, "rsa", 0x1301, 29, request_cert=True, client_cert=material[ckey][:2]
+        )
+        msgs = client.receive_server_flight(out["INITIAL"] + out["HANDSHAKE"])
+        check([m["type"] for m in msgs] == [2, 8, 13, 11, 15, 20], f"{what}: flight shape")
+        flight = client.client_flight()
+        check([c[0] for c in T.split_messages(flight)] == [11, 15, 20], f"{what}: client flight shape")
+        server.feed(flight)
+        check(server.ctx.state == tls.State.SERVER_POST_HANDSHAKE, f"{what}: server done")
+        check(der(server.ctx._peer_certificate) == der(material[ckey][0]), f"{what}: peer certificate")
+        same_secrets(client, server, False, what)
+
+    # requested but no certificate available
+    client, server, out = refclient_handshake(material, "rsa", 0x1301, 29, request_cert=True)
+    client.receive_server_flight(out["INITIAL"] + out["HANDSHAKE"])
+    flight = client.client_flight()
+    check([c[0] for c in T.split_messages(flight)] == [11, 20], "no client cert: flight shape")
+    server.feed(flight)
+    check(server.ctx.state == tls.State.SERVER_POST_HANDSHAKE, "no client cert: server done")
+
+    # negative controls on the scripted client flight
+    client, server, out = refclient_handshake(
+        material, "rsa", 0x1301, 29, request_cert=True, client_cert=material["ec256"][:2]
+    )
+    client.receive_server_flight(out["INITIAL"] + out["HANDSHAKE"])
+    flight = client.certificate() + client.certificate_verify(private_key=material["ec384"][1], algorithm=0x0403)
+    expect_raises(tls.Alert, server.feed, flight, what="aioquic server rejects CertificateVerify by another key")
+
+    client, server, out = refclient_handshake(material, "rsa", 0x1301, 29)
+    client.receive_server_flight(out["INITIAL"] + out["HANDSHAKE"])
+    expect_raises(
+        tls.AlertDecryptError, server.feed, client.finished(verify_data=bytes(32)), what="aioquic server rejects bad Finished"
+    )
+
+    # RefClient itself rejects a tampered server flight
+    client, server, out = refclient_handshake(material, "rsa", 0x1301, 29)
+    client.receive_server_flight(out["INITIAL"])
+    chunks = T.split_messages(out["HANDSHAKE"])
+    cv = bytearray(chunks[2])
+    cv[-1] ^= 1
+    exc = expect_raises(
+        T.HandshakeError, client.receive_server_flight, chunks[0] + chunks[1] + bytes(cv), what="RefClient bad CV"
+    )
+    check(exc.alert == "decrypt_error", "RefClient bad CV alert")
+    client, server, out = refclient_handshake(material, "rsa", 0x1301, 29)
+    client.receive_server_flight(out["INITIAL"])
+    chunks = T.split_messages(out["HANDSHAKE"])
+    bad_fin = bytearray(chunks[3])
+    bad_fin[-1] ^= 1
+    exc = expect_raises(
+        T.HandshakeError, client.receive_server_flight, b"".join(chunks[:3]) + bytes(bad_fin), what="RefClient bad Fin"
+    )
+    check(exc.alert == "decrypt_error", "RefClient bad Finished alert")
+    client, server, out = refclient_handshake(material, "rsa", 0x1301, 29)
+    client.receive_server_flight(out["INITIAL"])
+    chunks = T.split_messages(out["HANDSHAKE"])
+    exc = expect_raises(T.HandshakeError, client.receive_server_flight, chunks[1], what="RefClient order")
+    check(exc.alert == "unexpected_message", "RefClient out-of-order alert")
+
+    # determinism
+    a = T.RefClient(server_name="localhost", alpn=[b"h3"], rng=det_rng(3)).client_hello()
+    b = T.RefClient(server_name="localhost", alpn=[b"h3"], rng=det_rng(3)).client_hello()
+    c = T.RefClient(server_name="localhost", alpn=[b"h3"], rng=det_rng(4)).client_hello()
+    check(a == b and a != c, "deterministic ClientHello given rng")
+
+
+# --------------------------------------------------------------------------
+# 4. PSK resumption
+# --------------------------------------------------------------------------
+
+
+def test_psk_refserver(material) -> None:
+    tls, _ = aq()
+    for suite in (T.TLS_AES_128_GCM_SHA256, T.TLS_AES_256_GCM_SHA384, T.TLS_CHACHA20_POLY1305_SHA256):
+        for nonce, early in ((b"", None), (b"\x00\x01", 0xFFFFFFFF)):
+            what = f"PSK RefServer {suite:#06x} nonce={nonce.hex()} early={early}"
+            tickets = []
+            # aioquic offers psk_key_exchange_modes only when the cb is set before the ClientHello
+            cert, key, verify = material["rsa"]
+            client = aioquic_client(alpn=["hq-interop"], cipher_suites=[suite], groups=[29], verify=verify)
+            client.ctx.new_session_ticket_cb = tickets.append
+            server = T.RefServer([der(cert)], key, alpn=b"hq-interop", transport_parameters=TP_SERVER)
+            server.receive_client_hello(client.feed(b"")["INITIAL"])
+            check(server.psk_modes == [T.PSK_DHE_KE], f"{what}: psk_dhe_ke offered")
+            sh, flight = server.default_flight()
+            client.feed(sh)
+            out = client.feed(flight)
+            # 0.5-RTT style ticket (before the client Finished is processed) and a regular one
+            early_nst = server.new_session_ticket(ticket=b"T-early" + nonce, ticket_nonce=nonce, max_early_data_size=early)
+            check(server.check_client_finished(out["HANDSHAKE"]), f"{what}: first handshake")
+            late_nst = server.new_session_ticket(ticket=b"T-late" + nonce, ticket_nonce=nonce, max_early_data_size=early)
+            check(
+                server.issued_tickets[b"T-early" + nonce] == server.issued_tickets[b"T-late" + nonce],
+                f"{what}: predicted resumption secret equals the real one",
+            )
+            client.feed(early_nst + late_nst)
+            check(len(tickets) == 2, f"{what}: tickets delivered")
+            ticket = tickets[1]
+            check(ticket.resumption_secret == server.issued_tickets[ticket.ticket], f"{what}: resumption PSK equal")
+            check(ticket.max_early_data_size == early, f"{what}: max_early_data_size")
+
+            # resumption
+            client2 = aioquic_client(
+                alpn=["hq-interop"], cipher_suites=[suite], groups=[29], verify=verify, session_ticket=ticket
+            )
+            ch2 = client2.feed(b"")["INITIAL"]
+            server2 = T.RefServer(
+                [der(cert)],
+                key,
+                alpn=b"hq-interop",
+                transport_parameters=TP_SERVER,
+                cipher_suites=(suite,),
+                psk_lookup=server.issued_tickets.get,
+            )
+            server2.receive_client_hello(ch2)
+            check(server2.psk_offered is not None and server2.binder_ok is True, f"{what}: binder verifies")
+            check(server2.psk_offered[0][0][0] == ticket.ticket, f"{what}: identity")
+            check(server2.client_offers_early_data == (early is not None), f"{what}: early_data offered")
+            sh = server2.server_hello(select_psk=True)
+            flight = server2.encrypted_extensions(early_data=early is not None) + server2.finished()
+            check([c[0] for c in T.split_messages(flight)] == [8, 20], f"{what}: EE, Finished only")
+            client2.feed(sh)
+            out = client2.feed(flight)
+            check(client2.ctx.state == tls.State.CLIENT_POST_HANDSHAKE, f"{what}: resumed client done")
+            check(client2.ctx.session_resumed, f"{what}: session_resumed")
+            check(server2.check_client_finished(out["HANDSHAKE"]), f"{what}: resumed client Finished")
+            same_secrets(server2, client2, True, what)
+            if early is not None:
+                check(client2.ctx.early_data_accepted, f"{what}: early data accepted")
+                check(
+                    client2.keys.get(("ENCRYPT", "ZERO_RTT")) == server2.client_early_secret,
+                    f"{what}: client_early_traffic_secret",
+                )
+
+            # corrupted binder is detected
+            bad = bytearray(ch2)
+            bad[-1] ^= 1
+            server3 = T.RefServer([der(cert)], key, cipher_suites=(suite,), psk_lookup=server.issued_tickets.get)
+            server3.receive_client_hello(bytes(bad))
+            check(server3.binder_ok is False, f"{what}: corrupted binder detected")
+            expect_raises(T.HandshakeError, server3.server_hello, select_psk=True, what=f"{what}: refuses bad binder")
+
+            # server may decline the PSK: full handshake with the same ClientHello
+            client4 = aioquic_client(
+                alpn=["hq-interop"], cipher_suites=[suite], groups=[29], verify=verify, session_ticket=ticket
+            )
+            server4 = T.RefServer([der(cert)], key, alpn=b"hq-interop", transport_parameters=TP_SERVER)
+            server4.receive_client_hello(client4.feed(b"")["INITIAL"])
+            sh, flight = server4.default_flight()
+            client4.feed(sh)
+            out = client4.feed(flight)
+            check(server4.check_client_finished(out["HANDSHAKE"]), f"{what}: declined PSK, full handshake")
+            check(not client4.ctx.session_resumed, f"{what}: not resumed")
+            same_secrets(server4, client4, True, what + " declined")
+
+
+def test_psk_refclient(material) -> None:
+    tls, _ = aq()
+    cert, key, _ = material["rsa"]
+    for suite in (T.TLS_AES_128_GCM_SHA256, T.TLS_AES_256_GCM_SHA384, T.TLS_CHACHA20_POLY1305_SHA256):
+        for early in (None, 0xFFFFFFFF):
+            what = f"PSK RefClient {suite:#06x} early={early}"
+            store = {}
+
+            def make_server():
+                server = aioquic_server(cert, key, alpn=["hq-interop"], max_early_data=early)
+                server.ctx.new_session_ticket_cb = lambda t: store.__setitem__(t.ticket, t)
+                server.ctx.get_session_ticket_cb = store.get
+                return server
+
+            server = make_server()
+            client = T.RefClient(
+                server_name="localhost", alpn=[b"hq-interop"], transport_parameters=TP_CLIENT, cipher_suites=(suite,)
+            )
+            out = server.feed(client.client_hello())
+            client.receive_server_flight(out["INITIAL"] + out["HANDSHAKE"])
+            check(len(store) == 1 and out["ONE_RTT"], f"{what}: server issued a ticket")
+            server.feed(client.client_flight())
+            msgs = client.receive_server_flight(out["ONE_RTT"])
+            check([m["type"] for m in msgs] == [4], f"{what}: NewSessionTicket received")
+            nst = client.new_session_tickets[0]
+            psk = client.ticket_psk(nst)
+            check(psk["key"] == store[nst["ticket"]].resumption_secret, f"{what}: resumption PSK equal")
+            if early is not None:
+                body = T.find_extension(nst["extensions"], T.EXT_EARLY_DATA)
+                check(T.parse_early_data(body, nst=True) == early, f"{what}: max_early_data_size")
+
+            server2 = make_server()
+            client2 = T.RefClient(
+                server_name="localhost",
+                alpn=[b"hq-interop"],
+                transport_parameters=TP_CLIENT,
+                cipher_suites=(suite,),
+                psk=psk,
+                early_data=early is not None,
+            )
+            out = server2.feed(client2.client_hello())
+            msgs = client2.receive_server_flight(out["INITIAL"] + out["HANDSHAKE"])
+            check([m["type"] for m in msgs] == [2, 8, 20], f"{what}: resumed flight SH, EE, Finished")
+            check(client2.psk_selected and server2.ctx.session_resumed, f"{what}: resumed")
+            server2.feed(client2.client_flight())
+            check(server2.ctx.state == tls.State.SERVER_POST_HANDSHAKE, f"{what}: server done")
+            same_secrets(client2, server2, False, what)
+            if early is not None:
+                check(client2.early_data_accepted, f"{what}: early data accepted")
+                check(
+                    server2.keys.get(("DECRYPT", "ZERO_RTT")) == client2.client_early_secret,
+                    f"{what}: client_early_traffic_secret",
+                )
+
+            # a wrong binder must be refused by the aioquic server
+            server3 = make_server()
+            client3 = T.RefClient(
+                server_name="localhost", alpn=[b"hq-interop"], cipher_suites=(suite,), psk=dict(psk, key=bytes(len(psk["key"])))
+            )
+            expect_raises(tls.AlertHandshakeFailure, server3.feed, client3.client_hello(), what=f"{what}: bad binder")
+
+
+# --------------------------------------------------------------------------
+# 5. robustness
+# --------------------------------------------------------------------------
+
+
+def test_robustness() -> None:
+    rnd = random.Random(20260922)
+    seeds = [T.encode_message(m) for m in hand_built_messages()]
+    for path in sorted(glob.glob(f"{TESTS}/tls_*.bin")):
+        with open(path, "rb") as fp:
+            seeds.append(fp.read())
+    parsers = [
+        T.parse_server_name,
+        T.parse_supported_versions,
+        T.parse_supported_groups,
+        T.parse_signature_algorithms,
+        T.parse_key_share,
+        T.parse_alpn,
+        T.parse_psk_key_exchange_modes,
+        T.parse_pre_shared_key,
+        T.parse_early_data,
+        T.parse_key_share_hrr,
+        T.parse_extensions,
+    ]
+    accepted = 0
+    for i in range(6000):
+        data = bytearray(rnd.choice(seeds))
+        for _ in range(rnd.randint(1, 4)):
+            op = rnd.randrange(4)
+            if op == 0 and data:
+                data[rnd.randrange(len(data))] = rnd.randrange(256)
+            elif op == 1 and data:
+                del data[rnd.randrange(len(data))]
+            elif op == 2:
+                data.insert(rnd.randrange(len(data) + 1), rnd.randrange(256))
+            elif data:
+                pos = rnd.randrange(len(data))
+                data[pos] = rnd.choice((0, 1, 0x7F, 0x80, 0xFF))
+        data = bytes(data)
+        for strict in (True, False):
+            try:
+                msg = T.decode_message(data, strict=strict)
+            except T.ParseError:
+                continue
+            except Exception as exc:
+                raise Failure(f"decode_message raised {type(exc).__name__}: {exc} on {data.hex()}")
+            # whatever is accepted must re-encode to the same bytes
+            if T.encode_message(msg) != data:
+                raise Failure(f"accepted message does not re-encode identically: {data.hex()}")
+            accepted += 1
+            for ext_type, body in msg.get("extensions") or []:
+                for parse in parsers:
+                    for kw in ({}, {"server": True}, {"nst": True}):
+                        try:
+                            parse(body, **kw)
+                        except (T.ParseError, TypeError):
+                            pass
+                        except Exception as exc:
+                            raise Failure(f"{parse.__name__} raised {type(exc).__name__}: {exc} on {body.hex()}")
+        try:
+            T.split_messages(data)
+        except T.ParseError:
+            pass
+    check(accepted > 100, "fuzz: a fair share of mutants still parse")
+    check(True, "fuzz: only ParseError escaped")
+
+    # RefServer on garbage: HandshakeError only
+    key = ed25519.Ed25519PrivateKey.generate()
+    chain = [der(self_signed(key))]
+    good = T.RefClient(server_name="localhost", alpn=[b"h3"], rng=det_rng(1)).client_hello()
+    for i in range(1500):
+        data = bytearray(good)
+        for _ in range(rnd.randint(1, 3)):
+            data[rnd.randrange(len(data))] = rnd.randrange(256)
+        server = T.RefServer(chain, key, rng=det_rng(i))
+        try:
+            server.receive_client_hello(bytes(data))
+            server.default_flight()
+        except T.HandshakeError:
+            pass
+        except Exception as exc:
+            raise Failure(f"RefServer raised {type(exc).__name__}: {exc} on {bytes(data).hex()}")
+    check(True, "RefServer: only HandshakeError on mutated ClientHello")
+
+    # key schedule sanity: RFC 5869 test case 1 (HKDF-SHA256)
+    prk = T.hkdf_extract("sha256", bytes.fromhex("000102030405060708090a0b0c"), bytes([0x0B] * 22))
+    check(prk.hex() == "077709362c2e32df0ddc3f0dc47bba6390b6c73bb50f9c3122ec844ad7c2b3e5", "RFC 5869 A.1 PRK")
+    okm = T.hkdf_expand("sha256", prk, bytes.fromhex("f0f1f2f3f4f5f6f7f8f9"), 42)
+    check(
+        okm.hex() == "3cb25f25faacd57a90434f64d0362f2a2d2d0a90cf1a5a4c5db02d56ecc4c5bf34007208d5b887185865",
+        "RFC 5869 A.1 OKM",
+    )
+    # RFC 8448 section 3 constants that are reproducible without a trace: the
+    # early secret for a zero PSK and its "derived" secret
+    ks = T.KeySchedule(T.TLS_AES_128_GCM_SHA256)
+    check(
+        ks.early_secret.hex() == "33ad0a1c607ec03b09e6cd9893680ce210adf300aa1f2660e1b22e10f170f92a",
+        "RFC 8448 early secret",
+    )
+    derived = T.derive_secret("sha256", ks.early_secret, b"derived", hashlib.sha256(b"").digest())
+    check(
+        derived.hex() == "6f2615a108c702c5678f54fc9dbab69716c076189c48250cebeac3576c3611ba",
+        "RFC 8448 derived secret",
+    )
+    check(
+        T.KeySchedule.certificate_verify_input(b"H" * 32, True)
+        == b" " * 64 + b"TLS 1.3, server CertificateVerify\x00" + b"H" * 32,
+        "certificate_verify_input",
+    )
+
+
+# --------------------------------------------------------------------------
+# observations (--observe): how the unmodified aioquic reacts to a key-holding
+# peer that deviates from RFC 8446.  Nothing here can fail the selftest.
+# --------------------------------------------------------------------------
+
+
+def observe_aioquic(mat) -> None:
+    tls, _ = aq()
+
+    def run(name, f):
+        try:
+            r=f(); print(f"[{name}] ACCEPTED -> {r}")
+        except tls.Alert as e: print(f"[{name}] alert {type(e).__name__}: {e}")
+        except T.HandshakeError as e: print(f"[{name}] reftls HandshakeError {e}")
+        except Exception as e: print(f"[{name}] ESCAPED {type(e).__name__}: {e}")
+
+    def base(label="rsa", **kw):
+        c,s,ch=refserver_handshake(mat,label,0x1301,29, **kw); return c,s
+    def finish(c,s,flight):
+        out=c.feed(flight); ok=s.check_client_finished(out["HANDSHAKE"]); return f"state={c.ctx.state.name} clientfin_ok={ok}"
+
+    def p1():
+        c,s=base(); c.feed(s.server_hello())
+        fl=s.encrypted_extensions()+s.certificate()+s.certificate_verify(algorithm=0x0401)+s.finished(); return finish(c,s,fl)
+    run("CV rsa_pkcs1_sha256", p1)
+    def p1b():
+        c,s=base(); c.feed(s.server_hello())
+        fl=s.encrypted_extensions()+s.certificate()+s.certificate_verify(algorithm=0x0201)+s.finished(); return finish(c,s,fl)
+    run("CV rsa_pkcs1_sha1", p1b)
+    def p2():
+        c,s=base(); c.feed(s.server_hello(legacy_session_id_echo=b"evil"*4))
+        fl=s.encrypted_extensions()+s.certificate()+s.certificate_verify()+s.finished(); return finish(c,s,fl)
+    run("SH wrong session id echo", p2)
+    def p3():
+        c,s=base(); c.feed(s.server_hello(random=T.HRR_RANDOM))
+        fl=s.encrypted_extensions()+s.certificate()+s.certificate_verify()+s.finished(); return finish(c,s,fl)
+    run("SH with HRR random treated as SH", p3)
+    def p4():
+        c,s=base(alpn=None); c.feed(s.server_hello())
+        fl=s.encrypted_extensions(alpn=b"not-offered")+s.certificate()+s.certificate_verify()+s.finished(); return finish(c,s,fl)+f" alpn={c.ctx.alpn_negotiated}"
+    run("EE ALPN not offered (client offered none)", p4)
+    def p4b():
+        c,s=base(); c.feed(s.server_hello())
+        fl=s.encrypted_extensions(alpn=b"other")+s.certificate()+s.certificate_verify()+s.finished(); return finish(c,s,fl)+f" alpn={c.ctx.alpn_negotiated}"
+    run("EE ALPN other than offered", p4b)
+    def p5():
+        c,s=base(); c.feed(s.server_hello())
+        fl=s.encrypted_extensions()+s.certificate(request_context=b"ctx")+s.certificate_verify()+s.finished(); return finish(c,s,fl)
+    run("server Certificate with request_context", p5)
+    def p6():
+        c,s=base(); c.feed(s.server_hello())
+        return c.feed(s.encrypted_extensions()+s.certificate(chain=[]))
+    run("empty certificate list", p6)
+    def p7():
+        c,s=base(); c.feed(s.server_hello(extra_extensions=[(43,b"\x03\x04")]))
+        fl=s.encrypted_extensions()+s.certificate()+s.certificate_verify()+s.finished(); return finish(c,s,fl)
+    run("duplicate supported_versions in SH", p7)
+    def p7b():
+        c,s=base(); c.feed(s.server_hello(extra_extensions=[(0x39,b"zz"),(16,b"")]))
+        fl=s.encrypted_extensions()+s.certificate()+s.certificate_verify()+s.finished(); return finish(c,s,fl)
+    run("forbidden extensions in SH (QUIC TP, ALPN)", p7b)
+    def p8():
+        c,s=base(); c.feed(s.server_hello())
+        fl=s.encrypted_extensions(extra_extensions=[(0x39,b"dup")])+s.certificate()+s.certificate_verify()+s.finished(); return finish(c,s,fl)+f" ext={c.ctx.received_extensions}"
+    run("duplicate QUIC TP in EE", p8)
+    def p9():
+        c,s=base(); c.feed(s.server_hello())
+        fl=s.encrypted_extensions(early_data=True)+s.certificate()+s.certificate_verify()+s.finished(); return finish(c,s,fl)+f" early_accepted={c.ctx.early_data_accepted}"
+    run("EE early_data without PSK", p9)
+    def p10():
+        c,s=base(); c.feed(s.server_hello())
+        fl=s.encrypted_extensions()+s.certificate()+s.certificate_verify()+s.finished()
+        r=finish(c,s,fl); c.feed(T.encode_message({"type":24,"request_update":0})); return r
+    run("KeyUpdate post handshake", p10)
+    def p11():
+        c,s=base(); c.feed(s.server_hello())
+        fl=s.encrypted_extensions()+s.certificate_request(signature_algorithms=[0x0804], request_context=b"ctx")+s.certificate()+s.certificate_verify()+s.finished()
+        out=c.feed(fl); msgs=s.receive_client_flight(out["HANDSHAKE"]); return [ (T.message_name(x["type"]), x.get("request_context")) for x in msgs]
+    run("CertificateRequest with context in handshake", p11)
+    def p12():
+        c,s=base(); c.feed(s.server_hello(version=0x0303))
+    run("SH selected version 1.2", p12)
+    def p13():
+        c,s=base(); c.feed(s.server_hello(cipher_suite=0x1302))
+    run("SH suite not offered", p13)
+    def p14():
+        # client only supports x25519 but server answers with P-256 share
+        c=aioquic_client(cipher_suites=[0x1301],groups=[29]); ch=c.feed(b"")["INITIAL"]
+        s=T.RefServer([der(mat["rsa"][0])],mat["rsa"][1])
+        s.receive_client_hello(ch)
+        priv,pub=T.generate_key_share(23); s.key_share=(23,pub)
+        c.feed(s.server_hello())
+    run("SH key_share group not offered", p14)
+    def p15():
+        c,s=base(); sh=s.server_hello()
+        c.feed(sh); c.feed(s.encrypted_extensions()+s.certificate()+s.certificate_verify()+s.finished()+s.finished())
+    run("two Finished", p15)
+    def p16():
+        c,s=base(); c.feed(s.server_hello())
+        fl=s.encrypted_extensions()+s.certificate()+s.certificate_verify()+s.finished()
+        r=finish(c,s,fl)
+        c.feed(T.encode_message({"type":4,"ticket_lifetime":10**9,"ticket_age_add":0,"ticket_nonce":b"","ticket":b"","extensions":[]}))
+        return r+" (NST with empty ticket and lifetime 1e9 accepted)"
+    run("NST empty ticket", p16)
+
+    # aioquic server side
+    def q1():
+        cl,sv,out=refclient_handshake(mat,"rsa",0x1301,29, signature_algorithms=(0x0401,))
+        return [T.message_name(x["type"]) for x in cl.receive_server_flight(out["INITIAL"]+out["HANDSHAKE"])]
+    run("aioquic server, client offers only rsa_pkcs1_sha256", q1)
+    def q2():
+        cl,sv,out=refclient_handshake(mat,"rsa",0x1301,29, request_cert=True, client_cert=mat["rsa"][:2])
+        cl.receive_server_flight(out["INITIAL"]+out["HANDSHAKE"])
+        sv.feed(cl.certificate()+cl.certificate_verify(algorithm=0x0401)+cl.finished()); return sv.ctx.state.name
+    run("aioquic server accepts client CV rsa_pkcs1_sha256", q2)
+    def q3():
+        cl,sv,out=refclient_handshake(mat,"rsa",0x1301,29, request_cert=True, client_cert=mat["rsa"][:2])
+        cl.receive_server_flight(out["INITIAL"]+out["HANDSHAKE"])
+        sv.feed(cl.certificate(request_context=b"x")+cl.certificate_verify()+cl.finished()); return sv.ctx.state.name
+    run("aioquic server accepts client Certificate with wrong context", q3)
+    def q4():
+        sv=aioquic_server(*mat["rsa"][:2])
+        cl=T.RefClient(server_name="localhost",cipher_suites=(0x1301,))
+        cl.client_hello(); msg=dict(cl.client_hello_msg, compression_methods=[1,0])
+        out=sv.feed(T.encode_message(msg)); return "SH sent" if out["INITIAL"] else "nothing"
+    run("aioquic server CH compression [1,0]", q4)
+    def q5():
+        sv=aioquic_server(*mat["rsa"][:2])
+        cl=T.RefClient(server_name="localhost",cipher_suites=(0x1301,))
+        cl.client_hello(); msg=dict(cl.client_hello_msg); msg["extensions"]=msg["extensions"]+[(43,b"\x02\x03\x04")]
+        out=sv.feed(T.encode_message(msg)); return "SH sent" if out["INITIAL"] else "nothing"
+    run("aioquic server CH duplicate supported_versions", q5)
+    def q6():
+        sv=aioquic_server(*mat["rsa"][:2])
+        cl=T.RefClient(server_name="localhost",cipher_suites=(0x1301,), legacy_session_id=b"s"*33)
+        out=sv.feed(cl.client_hello()); return "SH sent" if out["INITIAL"] else "nothing"
+    run("aioquic server CH session id 33 bytes", q6)
+    def q7():
+        sv=aioquic_server(*mat["rsa"][:2])
+        cl=T.RefClient(server_name="localhost",cipher_suites=(0x1301,), groups=(29,), key_share_groups=(23,))
+        out=sv.feed(cl.client_hello()); return "SH sent" if out["INITIAL"] else "nothing"
+    run("aioquic server CH key_share group not in supported_groups", q7)
+    def q8():
+        sv=aioquic_server(*mat["rsa"][:2])
+        cl=T.RefClient(server_name="localhost",cipher_suites=(0x1301,), groups=(29,), key_share_groups=())
+        out=sv.feed(cl.client_hello()); return "SH sent" if out["INITIAL"] else "nothing"
+    run("aioquic server CH empty key_share (should HRR)", q8)
+    def q9():
+        sv=aioquic_server(*mat["rsa"][:2])
+        cl=T.RefClient(server_name="localhost",cipher_suites=(0x1301,), groups=(29,))
+        cl.client_hello(); msg=dict(cl.client_hello_msg)
+        msg["extensions"]=[(t,(T.build_key_share([(29,b"\x00"*32)]) if t==51 else b)) for t,b in msg["extensions"]]
+        out=sv.feed(T.encode_message(msg)); return "SH sent" if out["INITIAL"] else "nothing"
+    run("aioquic server x25519 all-zero public key", q9)
+
+
+def main() -> int:
+    material = load_material()
+    sections = [
+        ("codec", test_codec),
+        ("robustness", test_robustness),
+        ("RefServer vs aioquic client", lambda: test_refserver(material)),
+        ("RefClient vs aioquic server", lambda: test_refclient(material)),
+        ("PSK RefServer", lambda: test_psk_refserver(material)),
+        ("PSK RefClient", lambda: test_psk_refclient(material)),
+    ]
+    for name, func in sections:
+        try:
+            func()
+        except Failure as exc:
+            print(f"reftls selftest FAILED in [{name}]: {exc}")
+            return 1
+        except Exception:
+            print(f"reftls selftest ERROR in [{name}]:")
+            traceback.print_exc()
+            return 1
+    if "--observe" in sys.argv[1:]:
+        for text in NOTES:
+            print("note:", text)
+        observe_aioquic(material)
+    print(f"reftls selftest ok ({CHECKS} checks)")
+    return 0
+
+
+if __name__ == "__main__":
+    sys.exit(main())
